@@ -98,6 +98,14 @@ CLAIMED = {
         note="The solver decides selector feasibility only (stated); texts from a fixed pool of 6.",
         tech="bounded exhaustive exploration of call histories via solver-enumerated selectors",
         ref="DESIGN.md section 4 C12"),
+    "C04": dict(
+        text="Every tree up to the size bound (payloads chosen by solver-variable selectors from concrete pools, all "
+             "combinations) and every one-step rewrite result of concrete start trees: str(tree) is accepted by the real "
+             "parser, has the same variables, and z3 proves tree = re-parsed tree for every assignment (equations: same "
+             "truth value).",
+        note="Text needs digits, hence concrete payload pools (stated in the evidence); the assignment is unbounded.",
+        tech="bounded exhaustive tree enumeration through the engine + z3 equivalence of tree and re-parsed tree",
+        ref="DESIGN.md section 4 C04"),
 }
 
 PENDING = {}
